@@ -14,9 +14,16 @@ does rather than on how it is spelled (see REPORT-C04.md):
     after a wake (R-C04c), exactly-once structure (R-C04d), deadline origins (R-C04e).
 
 Anchors: exported functions, poll-method slots, sites (method->poll, list links
-through list_expired, stores to iv_state.time_valid / num_timers, kernel wait
-primitives), typed operands ((record, field) steps); never a static helper's
-name, a local's name or expression text.
+through list_expired, kernel wait primitives, iv_time_get, timerfd_settime), typed
+operands ((record, field) steps); never a static helper's name, a local's name or
+expression text.  The state the rules talk about is found by role (h04.bind): the
+cached loop time is what iv_time_get() fills, its validity flag and polarity are
+what the readers of the clock store next to the read, the timer count is what
+register and unregister step, the recorded deadline is what is assigned *request,
+the repeat counter is the integer member the poll root keeps between calls.
+Every context is normalised (h04.addr_propagate, h04.resolve_joined) so that
+cached addresses, out-parameters and kept short-circuit values read like the
+plain code.
 """
 from ..core import AnalysisBroken, canon, strip, last_member, must_pass, relpath, norm_cond, walk, forward
 from ..analyses import is_call, path_to, describe, exits_of, callback_kind, delta_analysis, atoms_imply
@@ -25,16 +32,28 @@ from . import h04 as h
 
 
 def _heap_order_comparators(prog, comps):
-    """Those comparators that are applied to the expiries of two timers (the heap order), directly or through
-    wrappers that pass their arguments on."""
-    names = {f.name for f in comps}
+    """Those comparators that are applied to two timers (the heap order): called with the addresses of the expiries of two
+    timers -- written out or held in pointer locals -- or, for a comparator of timers, with two timer pointers."""
+    byname = {f.name: f for f in comps}
     used = set()
     for f in prog.all_funcs():
-        for e in f.events():
-            for x in ([e] if e['ev'] == 'call' else []) + list(walk(e)):
-                if (x.get('k') == 'call' or x.get('ev') == 'call') and x.get('callee') in names and len(x.get('args', [])) == 2:
-                    lms = [last_member(strip(a_)['e']) if strip(a_).get('k') == 'addr' else None for a_ in x['args']]
-                    if all(lm in (('iv_timer_', 'expires'), ('iv_timer', 'expires')) for lm in lms):
+        if not any(x.get('callee') in byname for e in f.events() for x in ([e] if e['ev'] == 'call' else []) + list(walk(e))
+                   if x.get('k') == 'call' or x.get('ev') == 'call'):
+            continue
+        copies = h.ptr_copies(f)
+        for bid, blk in f.blocks.items():
+            srcs = [(e, copies.get((bid, i), {})) for i, e in enumerate(blk.events)]
+            if blk.term and blk.term.get('cond') is not None:
+                srcs.append((blk.term['cond'], copies.get((bid, len(blk.events)), {})))
+            for (e, cp) in srcs:
+                for x in ([e] if e.get('ev') == 'call' else []) + list(walk(e)):
+                    if not ((x.get('k') == 'call' or x.get('ev') == 'call') and x.get('callee') in byname and len(x.get('args', [])) == 2):
+                        continue
+                    if byname[x['callee']].params[0].get('record') == 'timespec':
+                        zs = [h.deref_target(a_, cp) for a_ in x['args']]
+                        if all(z is not None and last_member(z) in (('iv_timer_', 'expires'), ('iv_timer', 'expires')) for z in zs):
+                            used.add(x['callee'])
+                    else:
                         used.add(x['callee'])
     return used
 
@@ -46,6 +65,7 @@ def cmp_tables(ctx, rid):
     any other 0/1 predicate must at least be one of the four lexicographic orders.  (C04 additionally evaluates the
     expiry decision and the keep-armed decision in context, see expiry / keep_armed.)"""
     prog = ctx.prog
+    h.bind(prog)
     comps = h.comparators(prog)
     if not comps:
         raise AnalysisBroken('no pure comparator of two struct timespec found')
@@ -61,9 +81,10 @@ def cmp_tables(ctx, rid):
                 ctx.ob(rid, '%s:sec%s,nsec%s' % (f.name, so, no), ok, loc=f.loc,
                        detail='returns %s, lexicographic three-way order requires sign %d' % (r, want), fn=f.q)
             a = f.params[0]['name']
-            if any(x.get('k') == 'var' and x['name'] == a for blk in f.blocks.values() if blk.term and blk.term.get('cond') is not None
+            body = getattr(f, '_c04_body', f)
+            if any(x.get('k') == 'var' and x['name'] == a for blk in body.blocks.values() if blk.term and blk.term.get('cond') is not None
                    for x in [strip(y) for (_, _, _, y, _) in norm_cond(blk.term['cond'], True) if isinstance(y, dict)]):
-                r = interp.run(f, interp.Assignment(bools={a: False, f.params[1]['name']: True}))['ret']
+                r = interp.run(body, interp.Assignment(bools={a: False, f.params[1]['name']: True}))['ret']
                 ctx.ob(rid, '%s:no-deadline' % f.name, isinstance(r, int) and r > 0, loc=f.loc,
                        detail='a NULL deadline compares later than any stored deadline (returns %s)' % r, fn=f.q)
         elif f.name in heap:
@@ -82,6 +103,7 @@ def cmp_tables(ctx, rid):
 
 
 def run(ctx):
+    h.bind(ctx.prog)
     ctx.rule('R-C04a', 'a timer is moved to the expired batch only on the not-later-than-now edge of the strict comparison of its '
                        'expiry with the loop clock, and the loop clock is valid there', floor=3)
     ctx.rule('R-C04a.cmp', 'comparator tables over all 9 orderings of (sec, nsec): the expiry decision evaluated in context is exactly '
@@ -134,15 +156,114 @@ def _all_exprs(g, copies):
             yield blk.term['cond'], copies.get((b, len(blk.events)), {})
 
 
+def _ident(z):
+    """identity of a memory lvalue independent of how its address was obtained: its last (record, field) step, or its
+    spelling when it is a plain variable"""
+    lm = last_member(z)
+    return lm if lm is not None else ('var', canon(strip(z)))
+
+
+_INT_TYPE = __import__('re').compile(r'^(?:(?:const|volatile|unsigned|signed|short|long|int|char|_Bool)\s*)+$|^u?int\d+_t$|^s?size_t$')
+
+
+def _is_int_lvalue(x):
+    return isinstance(x, dict) and bool(_INT_TYPE.match((x.get('type') or '').strip()))
+
+
+def _repeat_state(g, absn, copies):
+    """The state of the repeated-deadline optimisation, found by role in the context that calls method->poll:
+    (identities of the lvalues in which the requested deadline is recorded -- a struct timespec in memory that is assigned
+    *request, whole or field by field --; {identity of an integer member that this code writes: the constants it, or an
+    integer local it may be cached in, is compared with or set to})."""
+    def lv(x, cp):
+        x = strip(x)
+        if isinstance(x, dict) and x.get('k') == 'deref':
+            t = h.deref_target(x['e'], cp)
+            if t is not None:
+                return strip(t)
+        return x
+
+    def is_request(x):
+        return h.deref_of_var(strip(x)) == absn
+
+    def persistent(x, cp):
+        """the lvalue outlives the call: not (part of) a local object of this code, whichever way it is reached"""
+        x = strip(x)
+        while isinstance(x, dict):
+            k = x.get('k')
+            if k == 'var':
+                return x.get('vk') not in ('local', 'param')
+            if k == 'member' and x.get('arrow'):
+                t = h.deref_target(x['base'], cp)
+                if t is None:
+                    return True
+                x = strip(t)
+            elif k == 'member':
+                x = strip(x['base'])
+            elif k == 'index':
+                x = strip(x['base'])
+            elif k == 'deref':
+                t = h.deref_target(x['e'], cp)
+                if t is None:
+                    return True
+                x = strip(t)
+            else:
+                return True
+        return True
+
+    def int_place(x, cp):
+        x = lv(x, cp)
+        if not _is_int_lvalue(x):
+            return None
+        if x.get('k') == 'member' and x.get('field') not in h.TS_FIELDS:
+            return 'member' if persistent(x, cp) else 'local'
+        if x.get('k') == 'var' and x.get('vk') in ('local', 'param'):
+            return 'local'
+        return None
+    def ic(x):
+        xs = strip(x)
+        return None if not isinstance(xs, dict) or xs.get('k') == 'null' else h.const_of(xs)
+    rec, written, consts = set(), set(), set()
+    for bid, blk in g.blocks.items():
+        for i, e in enumerate(blk.events):
+            if e['ev'] != 'store':
+                continue
+            cp = copies.get((bid, i), {})
+            if e.get('op') == '=' and 'rhs' in e:
+                if is_request(e['rhs']):
+                    z = lv(e['lhs'], cp)
+                    if persistent(z, cp):
+                        rec.add(_ident(z))
+                zl, zr = h.ts_operand(e['lhs'], cp), h.ts_operand(e['rhs'], cp)
+                if zl and zr and zl[1] == zr[1] and is_request(zr[0]) and persistent(zl[0], cp):
+                    rec.add(_ident(zl[0]))
+            pl = int_place(e['lhs'], cp)
+            if pl == 'member':
+                written.add(_ident(lv(e['lhs'], cp)))
+            if pl and 'rhs' in e and ic(e['rhs']) is not None:
+                consts.add(ic(e['rhs']))
+    for x0, cp in _all_exprs(g, copies):
+        for x in walk(x0):
+            if x.get('k') == 'bin' and x.get('op') in interp.CMP:
+                for (u, v) in ((x['l'], x['r']), (x['r'], x['l'])):
+                    if int_place(u, cp) and ic(v) is not None:
+                        consts.add(ic(v))
+    return rec, written, consts
+
+
 def keep_armed(ctx, rid='R-C04f'):
     """The repeated-deadline optimisation, decided by exhaustive evaluation of the code between the entry of the function
     that calls method->poll and its return (helpers inlined, so the split into iv_fd_timeout_check / timespec_cmp, the
-    name and type of the comparison result, the branch shapes do not matter): for every order of (requested deadline,
-    armed deadline) over (seconds, nanoseconds), requested deadline NULL or not, every value of the repeat counter up
-    to the largest constant it is compared with, both answers of method->set_poll_timeout / method->poll and both kinds
-    of method, all paths are enumerated and what reaches the method slots is observed.  "Armed" is the counter value at
-    which the code itself calls method->set_poll_timeout."""
+    name and type of the comparison result, verdicts returned through flags, out-parameters or conditional expressions,
+    the branch shapes do not matter): for every order of (requested deadline, recorded deadline) over (seconds,
+    nanoseconds), requested deadline NULL or not, every value of the repeat counter up to the largest constant it is
+    compared with or set to, both answers of method->set_poll_timeout / method->poll and both kinds of method, all paths
+    are enumerated and what reaches the method slots is observed *by value* along the path (a NULL passed for a NULL
+    request is the request).  The recorded deadline and the repeat counter are found by role (what is assigned *request;
+    the integer member compared with constants and stepped), "armed" is the counter value at which the code itself
+    calls method->set_poll_timeout."""
     prog = ctx.prog
+    h.bind(prog)
     cs = h.contexts(prog, _method_poll)
     # a poll slot that hands the wait on to another table's poll slot (mid-run fallback, C15 R-C15b) forwards
     # its caller's deadline decision; the repeated-deadline logic lives in the callers of the slot
@@ -159,25 +280,35 @@ def keep_armed(ctx, rid='R-C04f'):
     for (root, g, sites) in cs:
         absn = _deadline_param(root)
         copies = h.ptr_copies(g)
-        org = h.Origins(g)
+        rec, written, consts = _repeat_state(g, absn, copies)
+        if len(written) != 1:
+            raise AnalysisBroken('%s: the repeat counter of the deadline (the one integer member this code keeps between calls) '
+                                 'is not identified: %s' % (root.name, sorted(map(str, written))))
+        cnt_id = next(iter(written))
+        consts |= {0, 1}
+        if max(consts) - min(consts) > 24:
+            raise AnalysisBroken('%s: the repeat counter ranges over %d..%d: too many states to enumerate' % (root.name, min(consts), max(consts)))
 
         def klass(z):
             if h.deref_of_var(z) == absn:
                 return 'A'
-            return 'B' if last_member(z) == ('iv_state', 'last_abs') else None
-        cmps, cnt_keys, slot_keys, arm_keys, poll_keys, empty_keys, other_ts, consts = [], set(), set(), set(), set(), set(), [], {0, 1}
+            zs = strip(z)
+            # any other time value that lives in memory (not a local): the recorded deadline, if the code is right
+            return 'B' if isinstance(zs, dict) and zs.get('k') == 'member' else None
+        cmps, cnt_keys, slot_keys, arm_keys, poll_keys, empty_keys, other_ts, b_ids = [], set(), set(), set(), set(), set(), [], set()
         for x0, cp in _all_exprs(g, copies):
             for x in walk(x0):
                 k = x.get('k')
                 if k == 'bin' and x.get('op') in interp.CMP:
                     if h.pair_order(x['l'], x['r'], cp, klass, ('=', '=')) is not None:
                         cmps.append((x, cp))
+                        for side in (x['l'], x['r']):
+                            z = h.ts_operand(side, cp)
+                            if klass(z[0]) == 'B':
+                                b_ids.add(_ident(z[0]))
                     elif h.ts_operand(x['l'], cp) and h.ts_operand(x['r'], cp):
                         other_ts.append(x)
-                    for (u, v) in ((x['l'], x['r']), (x['r'], x['l'])):
-                        if last_member(u) == ('iv_state', 'last_abs_count') and h.const_of(v) is not None:
-                            consts.add(h.const_of(v))
-                elif k == 'member' and last_member(x) == ('iv_state', 'last_abs_count'):
+                elif k == 'member' and _ident(x) == cnt_id:
                     cnt_keys.add(canon(x))
                 elif k == 'member' and last_member(x) == ('iv_fd_poll_method', 'set_poll_timeout'):
                     slot_keys.add(canon(x))
@@ -187,33 +318,62 @@ def keep_armed(ctx, rid='R-C04f'):
                     poll_keys.add(canon(x))
                 elif k == 'call' and x.get('callee') == 'iv_list_empty':
                     empty_keys.add(canon(x))
-        if not cnt_keys:
-            raise AnalysisBroken('%s: the repeat counter of the deadline (last_abs_count) is not consulted before method->poll' % root.name)
-        r1.append((root, bool(cmps) and not other_ts, sites[0], [canon(x) for x in other_ts]))
+        # the values compared are the request and the deadline recorded from the request -- nothing else
+        r1.append((root, bool(cmps) and not other_ts and bool(rec) and b_ids <= rec, sites[0],
+                   [canon(x) for x in other_ts] + ['compared with %s, recorded in %s' % (sorted(map(str, b_ids)), sorted(map(str, rec)))]))
 
-        def deadline_kind(dl, e, env):
-            if dl is None:
+        def local_key(l):
+            """spelling of an lvalue that is (part of) a local object of this code -- a local, a member of a local struct --, else None"""
+            x = l
+            while isinstance(x, dict) and x.get('k') == 'member' and not x.get('arrow'):
+                x = strip(x['base'])
+            if isinstance(x, dict) and x.get('k') == 'var' and x.get('vk') in ('local', 'param'):
+                return canon(l)
+            return None
+
+        def pkind(x, path, depth=0):
+            """what a pointer value is, along this path: the request, NULL, the address of the recorded deadline"""
+            x = strip(x)
+            if not isinstance(x, dict) or depth > 8:
                 return 'other:?'
-            ks = set()
-            for o_ in org.of(dl, (e['_b'], e['_i'])):
-                d = strip(o_)
-                if h.const_of(d) == 0:
-                    ks.add('none')
-                elif isinstance(d, dict) and d.get('k') == 'var' and d['name'] == absn:
-                    ks.add('request')
-                elif isinstance(d, dict) and d.get('k') == 'addr' and last_member(d['e']) == ('iv_state', 'last_abs'):
-                    ks.add('armed-copy')
-                else:
-                    ks.add('other:' + canon(o_))
-            if len(ks) == 1:
-                return ks.pop()
-            d = strip(dl)
-            if ks == {'none', 'request'} and d.get('k') == 'var' and d['name'] in env:
-                return 'none' if env[d['name']] == 0 else 'request'
-            return 'other:' + canon(dl)
+            if h.const_of(x) == 0:
+                return 'none'
+            k = x.get('k')
+            if k in ('var', 'member', 'deref'):
+                key = local_key(strip(h._through(x, path['ptrs'])))
+                if key is not None and key in path.get('sym', {}):
+                    return path['sym'][key]
+            if k == 'var':
+                if x['name'] == absn:
+                    return 'request'
+                if x['name'] in path['ptrs']:
+                    return pkind(path['ptrs'][x['name']], path, depth + 1)
+                return 'other:' + x['name']
+            if k == 'addr':
+                return 'armed-copy' if _ident(strip(h._through(x['e'], path['ptrs']))) in rec else 'other:' + canon(x)
+            if k == 'cond':
+                try:
+                    return pkind(x['a'] if path['eval'](x['c']) else x['b'], path, depth + 1)
+                except interp.Undecided:
+                    a_, b_ = pkind(x['a'], path, depth + 1), pkind(x['b'], path, depth + 1)
+                    return a_ if a_ == b_ else 'other:' + canon(x)
+            return 'other:' + canon(x)
 
         def hook(e, env, asg, path):
             log = path.setdefault('log', [])
+            sym = path.setdefault('sym', {})
+            if e['ev'] == 'decl':
+                sym.pop(e['name'], None)
+                return
+            if e['ev'] == 'store':
+                key = local_key(strip(h._through(e['lhs'], path['ptrs'])))
+                if key is not None:
+                    v = pkind(e['rhs'], path) if e.get('op') == '=' and 'rhs' in e else 'other:?'
+                    if v.startswith('other:') and key != absn:
+                        sym.pop(key, None)
+                    else:
+                        sym[key] = v
+                return
             if e['ev'] != 'call':
                 return
             ck = callback_kind(e)
@@ -221,17 +381,26 @@ def keep_armed(ctx, rid='R-C04f'):
             if ck == ('method', 'clear_poll_timeout'):
                 log.append(('clear', None, e, cur))
             elif ck == ('method', 'set_poll_timeout'):
-                log.append(('arm', deadline_kind(e['args'][1] if len(e['args']) > 1 else None, e, env), e, cur))
+                log.append(('arm', pkind(e['args'][1], path) if len(e['args']) > 1 else 'other:?', e, cur))
             elif ck == ('method', 'poll'):
-                log.append(('poll', deadline_kind(e['args'][2] if len(e['args']) > 2 else None, e, env), e, cur))
+                log.append(('poll', pkind(e['args'][2], path) if len(e['args']) > 2 else 'other:?', e, cur))
+
+        # scenario: the wait reports no ready descriptor -- the local list it was given stays empty
+        def is_head(lvx):
+            lvx = strip(lvx)
+            return isinstance(lvx, dict) and lvx.get('k') == 'var' and lvx.get('vk') == 'local' and lvx.get('record') == 'iv_list_head' and not lvx.get('ptr')
+
+        def decide(c):
+            return h.empty_list_truth(c, is_head)
         runs = []
         for has_timer in (True, False):
             for nonnull in (True, False):
                 for o in (h.ORDERS if nonnull else [('=', '=')]):
                     orders = {}
                     for (x, cp) in cmps:
-                        orders[(canon(x['l']), canon(x['r']))] = h.pair_order(x['l'], x['r'], cp, klass, o)
-                    for cnt in range(0, max(consts) + 2):
+                        for k_ in h.order_keys(x, cp):
+                            orders[k_] = h.pair_order(x['l'], x['r'], cp, klass, o)
+                    for cnt in range(min(consts), max(consts) + 2):
                         for armres in (True, False):
                             for pollres in (True, False):
                                 bools = {absn: nonnull}
@@ -240,17 +409,17 @@ def keep_armed(ctx, rid='R-C04f'):
                                 bools.update({k: pollres for k in poll_keys})
                                 bools.update({k: True for k in empty_keys})
                                 ints = {k: cnt for k in cnt_keys}
-                                for path in h.explore(g, orders=orders, bools=bools, ints=ints, on_event=hook):
+                                for path in h.explore(g, orders=orders, bools=bools, ints=ints, on_event=hook, decide=decide):
                                     if path['end'] not in ('fatal', 'cut') and any(x[0] == 'poll' for x in path.get('log', [])):
                                         runs.append((has_timer, nonnull, o, cnt, armres, pollres, path))
         # the armed state: the counter value with which the code arms the kernel timer
+        # (the value it leaves in the counter when set_poll_timeout answered non-zero and the wait did not report a fired timer)
         armed_vals = set()
         for (has_timer, nonnull, o, cnt, armres, pollres, path) in runs:
-            for x in path['log']:
-                if x[0] == 'arm':
-                    armed_vals |= x[3]
+            if armres and not pollres and path['end'] in ('ret', 'exit') and any(x[0] == 'arm' for x in path['log']):
+                armed_vals |= {path['mem'].get(k) for k in cnt_keys}
         if len(armed_vals) > 1 or None in armed_vals:
-            raise AnalysisBroken('%s: method->set_poll_timeout is called with the repeat counter at %s (one definite value expected)'
+            raise AnalysisBroken('%s: after arming the kernel timer the repeat counter is left at %s (one definite value expected)'
                                  % (root.name, sorted(map(str, armed_vals))))
         # no path arms the kernel timer: then no counter value means "armed" and every wait without a deadline is unjustified
         armed = armed_vals.pop() if armed_vals else None
@@ -258,23 +427,26 @@ def keep_armed(ctx, rid='R-C04f'):
             log = path['log']
             pi = [i for i, x in enumerate(log) if x[0] == 'poll'][0]
             kind, site = log[pi][1], log[pi][2]
+            # by value: a NULL handed on for a NULL request is the request
+            is_request = kind == 'request' or (kind == 'none' and not nonnull)
+            is_null = kind == 'none' or (kind == 'request' and not nonnull)
             clears = [i for i in range(pi) if log[i][0] == 'clear']
             arms = [i for i in range(pi) if log[i][0] == 'arm']
             # the deadline handed to the kernel timer equals the request: it is the request, or the recorded deadline
             # on a path where the two compared equal
-            arm_ok = bool(arms) and (log[arms[-1]][1] == 'request' or (log[arms[-1]][1] == 'armed-copy' and nonnull and o == ('=', '=')))
+            arm_ok = bool(arms) and nonnull and (log[arms[-1]][1] == 'request' or (log[arms[-1]][1] == 'armed-copy' and o == ('=', '=')))
             arm_last = bool(arms) and (not clears or arms[-1] > clears[-1])
             armed_now = arm_last and arm_ok and armres
             kept = armed is not None and cnt == armed and not clears
             cfg = 'method %s a kernel timer, request %s, counter %d, set_poll_timeout -> %d' % (
-                'with' if has_timer else 'without', ('NULL' if not nonnull else 'vs armed (sec%s, nsec%s)' % o), cnt, armres)
-            r4.append((root, kind == 'request' or (kind == 'none' and has_timer and (kept or armed_now)), site, cfg + ': deadline ' + kind))
-            if kind == 'none' and not arms:
-                r2.append((root, kept and (not nonnull or h.lex(o) in '=>'), site, cfg))
+                'with' if has_timer else 'without', ('NULL' if not nonnull else 'vs recorded (sec%s, nsec%s)' % o), cnt, armres)
+            r4.append((root, is_request or (is_null and has_timer and (kept or armed_now)), site, cfg + ': deadline ' + kind))
+            if is_null and not is_request and not arms:
+                r2.append((root, kept and h.lex(o) in '=>', site, cfg))
             if arms:
-                r3.append((root, (armres or kind == 'request') and arm_ok and arm_last, site,
+                r3.append((root, (armres or is_request) and arm_ok and arm_last, site,
                            cfg + ': set_poll_timeout(%s), deadline %s' % (log[arms[-1]][1], kind)))
-            if kind == 'none' and pollres and path['end'] == 'ret':
+            if is_null and has_timer and (kept or armed_now) and pollres and path['end'] == 'ret':
                 cur = {path['mem'].get(k) for k in cnt_keys}
                 r5.append((root, armed is not None and None not in cur and armed not in cur, site, cfg + ': counter afterwards %s' % sorted(map(str, cur))))
 
@@ -289,10 +461,11 @@ def keep_armed(ctx, rid='R-C04f'):
         ctx.ob(rid, inst, not bad, loc=first[2]['loc'], fn=first[0].q,
                detail=text + (' -- violated for: ' + '; '.join(str(r_[3]) for r_ in bad[:4]) if bad else ' (%d evaluated paths)' % len(rows)))
     emit('timeout_check:compares-request-with-armed', r1,
-         'the time values compared before method->poll are the requested deadline and the armed deadline (st->last_abs), field by field')
+         'the time values compared before method->poll are the requested deadline and the deadline recorded from earlier requests '
+         '(st->last_abs: what is assigned *request), field by field')
     emit('timeout_check:keep-armed-only-if-not-earlier', r2,
-         'waiting without a deadline and without (re-)arming happens only with the kernel timer armed (counter at the arming value, not '
-         'cleared) and a requested deadline that is not earlier than the armed one (or none)')
+         'waiting without a deadline and without (re-)arming, although one was requested, happens only with the kernel timer armed (counter at '
+         'the arming value, not cleared) and a requested deadline that is not earlier than the armed one')
     emit('timeout_check:arming-result-propagated', r3,
          'when method->set_poll_timeout is called it gets the requested deadline, is not undone by a clear, and an answer 0 (not armed, e.g. after '
          'falling back to a method without a kernel timer) makes method->poll get the deadline itself')
@@ -300,8 +473,8 @@ def keep_armed(ctx, rid='R-C04f'):
          'method->poll gets the caller\'s deadline, or none only while a kernel timer is armed (kept or freshly armed with a non-zero answer)')
     if rid == 'R-C04f':
         emit('poll_and_run:fired-timer-disarms', r5,
-             'when the wait without a deadline reports "run timers" (the one-shot kernel timer fired) the repeat counter leaves the armed '
-             'value before the function returns, so the next wait is not left without a deadline and without a timer')
+             'when a wait without a deadline that relies on the kernel timer reports "run timers" (the one-shot kernel timer fired) the repeat '
+             'counter leaves the armed value before the function returns, so the next wait is not left without a deadline and without a timer')
     if missing:
         raise AnalysisBroken('keep_armed: no evaluated path exercises %s' % ', '.join(missing))
 
@@ -335,6 +508,7 @@ def rounding(ctx, rid='R-C04g'):
     clock NOW (valid), deadline NOW + (sec, nsec) -- along every path to the wait primitive, and the timeout argument
     observed there must be the remaining time rounded up to the next millisecond (0 for a deadline in the past)."""
     prog = ctx.prog
+    h.bind(prog)
     vectors = [(0, 0), (0, 1), (0, 999999), (0, 1000000), (0, 1000001), (3, 500000), (7, 999999999)]
     past = [(-1, 0), (0, -1), (-2, 400000001)]
     seen = {}
@@ -354,9 +528,9 @@ def rounding(ctx, rid='R-C04g'):
                     z = h.ts_operand(x, cp)
                     if z and h.deref_of_var(z[0]) == absn:
                         keys[('A', z[1])] |= {canon(x), h.ts_key(z[0], z[1])}
-                    elif z and last_member(z[0]) == ('iv_state', 'time'):
+                    elif z and h.is_clock(z[0]):
                         keys[('B', z[1])] |= {canon(x), h.ts_key(z[0], z[1])}
-                elif x.get('k') == 'member' and last_member(x) == ('iv_state', 'time_valid'):
+                elif x.get('k') == 'member' and h.is_flag(x):
                     valid_keys.add(canon(x))
                 elif x.get('k') == 'call' and x.get('callee') == 'iv_list_empty':
                     empty_keys.add(canon(x))
@@ -388,7 +562,7 @@ def rounding(ctx, rid='R-C04g'):
             for k in keys[('B', 'tv_nsec')]:
                 ints[k] = NOW[1]
             for k in valid_keys:
-                ints[k] = 1
+                ints[k] = h.ROLE['valid']
             bools = {absn: True}
             bools.update({k: True for k in empty_keys})
             for path in h.explore(g, bools=bools, ints=ints, on_event=hook, goal_blocks={e['_b'] for e in sinks}):
@@ -413,21 +587,44 @@ def rounding(ctx, rid='R-C04g'):
 LE_MEMBER = (('iv_timer_', 'list_expired'), ('iv_timer', 'list_expired'))
 
 
-def _expired_link(e):
-    """an object is linked into a list through its `list_expired` member (it joins the batch of expired timers): a list
-    insertion primitive on &X->list_expired, or -- open-coded -- the address of X's node stored into a neighbour's
-    next/prev"""
-    if is_call(e, ('iv_list_add', 'iv_list_add_tail')) and h.list_arg_member(e) in LE_MEMBER:
-        return True
-    if e['ev'] == 'store' and e.get('op') == '=' and last_member(e['lhs']) in (('iv_list_head', 'next'), ('iv_list_head', 'prev')):
-        r = strip(e.get('rhs'))
-        return isinstance(r, dict) and r.get('k') == 'addr' and last_member(r['e']) in LE_MEMBER
-    return False
+def _mentions_expired(e):
+    """the event takes the address of some object's `list_expired` node (candidate for linking / unlinking it)"""
+    return any(x.get('k') == 'addr' and last_member(x.get('e')) in LE_MEMBER for x in walk(e))
+
+
+def _links(g):
+    """{(block, index): timer object expression X} of the events of g that link X into a list through its `list_expired`
+    member (X joins the batch of expired timers): a list insertion primitive (also the fused open-coded form) whose
+    node argument is &X->list_expired -- written out, or held in a pointer local / helper parameter that was defined
+    from it --, or the address of X's node stored into a neighbour's next/prev"""
+    m = getattr(g, '_c04_links', None)
+    if m is None:
+        copies = h.ptr_copies(g)
+        m = {}
+        for bid, blk in g.blocks.items():
+            for i, e in enumerate(blk.events):
+                node = None
+                if is_call(e, ('iv_list_add', 'iv_list_add_tail')) and e.get('args'):
+                    node = e['args'][0]
+                elif e['ev'] == 'store' and e.get('op') == '=' and 'rhs' in e and \
+                        last_member(e['lhs']) in (('iv_list_head', 'next'), ('iv_list_head', 'prev')):
+                    node = e['rhs']
+                if node is None:
+                    continue
+                z = h.deref_target(node, copies.get((bid, i), {}))
+                if z is not None and last_member(z) in LE_MEMBER:
+                    m[(bid, i)] = h.member_base(z)
+        g._c04_links = m
+    return m
+
+
+def _expired_link(g, e):
+    return (e['_b'], e['_i']) in _links(g)
 
 
 def _heap_leave(e):
     """a timer leaves the heap: the unregister API is called, or (its body inlined) the timer count is lowered"""
-    return is_call(e, 'iv_timer_unregister') or (h.is_store_of(e, 'iv_state', 'num_timers') and
+    return is_call(e, 'iv_timer_unregister') or (e['ev'] == 'store' and h.is_num(e['lhs']) and
                                                  (e.get('op') in ('--', '-=') or (e.get('op') == '=' and 'rhs' in e)))
 
 
@@ -435,16 +632,20 @@ EXPIRY_STOP = ('iv_timer_unregister', 'iv_timer_register', 'iv_time_get')
 
 
 def _expiry_contexts(prog):
-    cs = h.contexts(prog, _expired_link, stop=EXPIRY_STOP)
+    cs = []
+    for (root, g, cands) in h.contexts(prog, _mentions_expired, stop=EXPIRY_STOP):
+        links = [g.blocks[b_].events[i_] for (b_, i_) in sorted(_links(g))]
+        if links:
+            cs.append((root, g, links))
     if not cs:
         raise AnalysisBroken('no function links a timer into an expired batch (list_expired)')
     return cs
 
 
-def _timer_of_move(e):
+def _timer_of_move(g, e):
     """the timer object expression of a move event (link into the batch / removal from the heap); None = any timer"""
-    if _expired_link(e):
-        return h.member_base(strip(e['args'][0] if e['ev'] == 'call' else e['rhs'])['e'])
+    if _expired_link(g, e):
+        return _links(g)[(e['_b'], e['_i'])]
     if is_call(e, 'iv_timer_unregister'):
         return e['args'][0] if e.get('args') else None
     return None
@@ -474,7 +675,7 @@ def _inlined_unregisters(prog, g):
 
 def _move_identity(prog, g, org, m):
     """(spellings of the timer a move event is about, the locals among them) -- None: unknown timer"""
-    x = _timer_of_move(m)
+    x = _timer_of_move(g, m)
     pt = (m['_b'], m['_i'])
     if x is None and not is_call(m, 'iv_timer_unregister'):
         # heap removal inlined from a helper: the timer is what the outermost inlined call was given
@@ -511,14 +712,14 @@ def expiry(ctx):
                     lm = last_member(z)
                     if lm in (('iv_timer_', 'expires'), ('iv_timer', 'expires')) and (xn is None or h.same_obj(h.member_base(z), xn, org, pt)):
                         return 'A'
-                    if lm == ('iv_state', 'time'):
+                    if lm in h.ROLE['clock']:
                         return 'B'
                     return None
                 return klass
             osets = h.order_sets(prog, g, copies, klass_at, reset=lambda e, xl=xlocals: h.redefines(e, xl))
             S = osets.get((m['_b'], m['_i']))
             late = sorted(o for o in (S or ()) if h.lex(o) == '>')
-            kind = 'expire' if _expired_link(m) else 'unregister'
+            kind = 'expire' if _expired_link(g, m) else 'unregister'
             if kind == 'expire':
                 for o in h.ORDERS:
                     table.setdefault(o, []).append((S is not None and o in S, m, root))
@@ -537,7 +738,7 @@ def expiry(ctx):
             lm = last_member(z)
             if lm in (('iv_timer_', 'expires'), ('iv_timer', 'expires')):
                 return 'A'
-            return 'B' if lm == ('iv_state', 'time') else None
+            return 'B' if lm in h.ROLE['clock'] else None
         tests = []
         for b, blk in g.blocks.items():
             if blk.term and blk.term.get('cond') is not None and len(blk.succ) == 2:
@@ -546,7 +747,7 @@ def expiry(ctx):
                     tests.append((b, blk))
         # a snapshot of the loop clock in a local struct is a read of the clock value: it must be valid there
         snaps = [e for e in g.events() if e['ev'] == 'store' and e.get('op') == '=' and strip(e['lhs']).get('k') == 'var'
-                 and strip(e['lhs']).get('record') == 'timespec' and not strip(e['lhs']).get('ptr') and last_member(e.get('rhs')) == ('iv_state', 'time')]
+                 and strip(e['lhs']).get('record') == 'timespec' and not strip(e['lhs']).get('ptr') and h.is_clock(e.get('rhs'))]
         okv = bool(tests) and all(valid.get((b, len(blk.events))) for (b, blk) in tests) and all(valid.get((e['_b'], e['_i'])) for e in snaps)
         badt = [blk for (b, blk) in tests if not valid.get((b, len(blk.events)))]
         ctx._c04_expiry_table = table
@@ -556,7 +757,7 @@ def expiry(ctx):
 
 def _validates(e):
     """a store that marks the cached loop time valid (anything but the constant 0)"""
-    return h.is_store_of(e, 'iv_state', 'time_valid') and not (e.get('op') == '=' and h.const_of(e.get('rhs')) == 0)
+    return e['ev'] == 'store' and h.is_flag(e['lhs']) and not h.invalidates(e)
 
 
 def expiry_table(ctx, rid='R-C04a.cmp'):
@@ -590,7 +791,7 @@ def invalidate(ctx):
                 if mp.get((pb, pi)) is False:
                     ok = False
         ctx.ob('R-C04b', '%s:%s' % (t.replace('iv_fd_poll_method_', ''), f.name), ok, loc=f.loc,
-               detail='time_valid = 0 on every path from the kernel wait (%s) to a return' % '/'.join(sorted({w['callee'] for w in waits})), fn=f.q)
+               detail='the cached loop time is marked invalid on every path from the kernel wait (%s) to a return' % '/'.join(sorted({w['callee'] for w in waits})), fn=f.q)
     # Who may call the cached time valid: only code that reads the clock into it.  Evaluated at every store of a non-zero
     # value to the validity flag, in every calling context (helpers inlined): the clock was read into st->time since the
     # last invalidation, or is read on every path from the store before user code runs / the function returns.
@@ -640,6 +841,26 @@ def _pollers(prog):
     return sorted({root.name for (root, g, sites) in cs})
 
 
+def _kernel_timer_fds(prog):
+    """identities of the lvalues that hold the kernel timer's descriptor: what is handed to timerfd_settime, and what the
+    result of timerfd_create is stored in (role, not field name)"""
+    if getattr(prog, '_c04_tfds', None) is None:
+        ids = set()
+        for f in prog.all_funcs():
+            if not any(is_call(e, ('timerfd_settime', 'timerfd_create')) for e in f.events()):
+                continue
+            org = h.Origins(f)
+            for e in f.events():
+                if is_call(e, 'timerfd_settime') and e.get('args') and last_member(e['args'][0]) is not None:
+                    ids.add(_ident(e['args'][0]))
+                if e['ev'] == 'store' and e.get('op') == '=' and 'rhs' in e and last_member(e['lhs']) is not None and \
+                        any(isinstance(strip(o), dict) and strip(o).get('k') == 'call' and strip(o).get('callee') == 'timerfd_create'
+                            for o in org.of(e['rhs'], (e['_b'], e['_i']))):
+                    ids.add(_ident(e['lhs']))
+        prog._c04_tfds = ids
+    return prog._c04_tfds
+
+
 def rerun(ctx):
     prog = ctx.prog
     for (t, slots, f, g) in _slot_contexts(prog):
@@ -659,7 +880,8 @@ def rerun(ctx):
                    loc=bad[0][0]['loc'] if bad else f.loc,
                    detail='given a deadline, every return of %s asks the caller to run timers: %s' % (f.name, sorted({v for (_, v) in res})), fn=f.q)
             # consuming the kernel timer's token: from the read of the timer descriptor every path returns non-zero
-            reads = [e for e in g.events() if is_call(e, 'read') and e.get('args') and (last_member(e['args'][0]) or ('', ''))[1] == 'timer_fd']
+            tfds = _kernel_timer_fds(prog)
+            reads = [e for e in g.events() if is_call(e, 'read') and e.get('args') and _ident(e['args'][0]) in tfds]
             okr = bool(reads)
             vals = set()
             for r in reads:
@@ -751,7 +973,7 @@ def _main_loop(ctx):
             atoms = [a for a in norm_cond(blk.term['cond'], si == 0) if a[0] != 'const']
             out = set()
             # with no timer registered the evaluation is vacuous (the runner returns at once): such an edge discharges it
-            notimers = any(last_member(l) == ('iv_state', 'num_timers') and h.const_of(r) is not None and
+            notimers = any(h.is_num(l) and h.const_of(r) is not None and
                            ((op in ('==', '<=') and h.const_of(r) == 0) or (op == '<' and h.const_of(r) == 1)) for (op, lc, rc, l, r) in atoms)
             for (need, envk) in S:
                 env = dict(envk)
@@ -833,7 +1055,7 @@ def once(ctx):
                 if is_stamp(e):
                     v = h.const_of(e.get('rhs')) if e.get('op') == '=' else None
                     return frozenset((l, u, v == 0) for (l, u, s_) in S)
-                if _expired_link(e) and h.same_obj(_timer_of_move(e), xn, org, pt(e)):
+                if _expired_link(g, e) and h.same_obj(_timer_of_move(g, e), xn, org, pt(e)):
                     return frozenset((True, u, s_) for (l, u, s_) in S)
                 return S
             _, ev2 = forward(g, frozenset({(False, False, False)}), tr2, lambda p, q: p | q)
@@ -882,14 +1104,15 @@ def once(ctx):
             return s
         _, ev_in = forward(g, (False, False), tr, lambda p, q: (p[0] and q[0], p[1] or q[1]), edge=edge)
         return bool(targets) and all((ev_in.get((e['_b'], e['_i'])) or (False, False))[0] for e in targets)
+    h.need('num')
     r = prog.fn('iv_timer_register')
     g = h.inline_root(prog, r)
-    incs = [e for e in g.events() if e['ev'] == 'store' and last_member(e['lhs']) == ('iv_state', 'num_timers')]
+    incs = [e for e in g.events() if e['ev'] == 'store' and h.is_num(e['lhs'])]
     ctx.ob('R-C04d', 'iv_timer_register:refuses-registered', guarded(g, '==', '-1', incs), loc=r.loc,
            detail='the timer count is raised (a timer enters the heap) only behind the edge index == -1 of the timer as passed in (double registration is fatal)', fn=r.q)
     u = prog.fn('iv_timer_unregister')
     g = h.inline_root(prog, u)
-    outs = [e for e in g.events() if (e['ev'] == 'store' and last_member(e['lhs']) == ('iv_state', 'num_timers')) or
+    outs = [e for e in g.events() if (e['ev'] == 'store' and h.is_num(e['lhs'])) or
             (is_call(e, ('iv_list_del', 'iv_list_del_init')) and h.list_arg_member(e) in (('iv_timer_', 'list_expired'), ('iv_timer', 'list_expired')))]
     ctx.ob('R-C04d', 'iv_timer_unregister:refuses-unregistered', guarded(g, '!=', '-1', outs), loc=u.loc,
            detail='heap removal and unlinking from the expired batch happen only behind the edge index != -1 of the timer as passed in '
@@ -939,8 +1162,10 @@ def deadline(ctx):
                 raise AnalysisBroken('%s: deadline argument not identified' % s_['callee'])
             for o in org.of(s_['args'][idx[0]], (s_['_b'], s_['_i'])):
                 r = strip(o)
-                if isinstance(r, dict) and r.get('k') == 'addr' and strip(r['e']).get('k') == 'var' and strip(r['e']).get('vk') == 'local' \
-                        and strip(r['e']).get('record') == 'timespec' and not strip(r['e']).get('ptr'):
+                v_ = strip(r['e']) if isinstance(r, dict) and r.get('k') == 'addr' else None
+                if isinstance(v_, dict) and v_.get('k') == 'var' and v_.get('record') == 'timespec' and not v_.get('ptr') and \
+                        (v_.get('vk') == 'local' or (v_.get('vk') in ('global', 'staticlocal') and 'const' in (v_.get('type') or '').split())):
+                    # a time value of this function's own (or an immutable one with static storage): "do not wait"
                     kinds.add('zeroed-local')
                 elif isinstance(r, dict) and r.get('k') == 'call' and r.get('callee') == 'iv_get_soonest_timeout':
                     kinds.add('soonest')
@@ -951,7 +1176,7 @@ def deadline(ctx):
     s = prog.fn('iv_get_soonest_timeout')
     g = h.inline_root(prog, s)
     org = h.Origins(g)
-    NT = ('iv_state', 'num_timers')
+    NT = h.need('num')
     res = delta_analysis(g, [], discr=[NT])
     okroot, oknull, nroot, nnull = True, True, 0, 0
     for (e, d, rc, preds) in res.rets:
